@@ -632,10 +632,25 @@ func (pr *ProtoArray) OnPrune(ctx context.Context, anchorRoot Root, anchorSlot S
 		delete(pr.indices, p.node.Ref)
 		// Remove the block-slots ref
 		delete(pr.blockSlots, p.node.Ref.Root)
-		// TODO: is this slicing bad for GC?
-		pr.nodes = pr.nodes[1:]
-		// update offset
-		pr.indexOffset++
+	}
+	// TODO: is this slicing bad for GC?
+	pr.nodes = pr.nodes[prunedUpTo:]
+	// Node indices are positions in the nodes array: the vote store computes one delta per position,
+	// and the nodes refer to each other by position. So shift everything that remains down,
+	// references to pruned nodes become NONE.
+	shift := func(i NodeIndex) NodeIndex {
+		if i == NONE || i < NodeIndex(prunedUpTo) {
+			return NONE
+		}
+		return i - NodeIndex(prunedUpTo)
+	}
+	for i := range pr.nodes {
+		node := &pr.nodes[i]
+		node.TransitionParent = shift(node.TransitionParent)
+		node.ForkchoiceParent = shift(node.ForkchoiceParent)
+		node.BestChild = shift(node.BestChild)
+		node.BestDescendant = shift(node.BestDescendant)
+		pr.indices[node.Ref] = NodeIndex(i)
 	}
 	return err
 }
